@@ -1,5 +1,5 @@
 """C07 — a query on a nested field filters inside every row, and only there."""
-from .. import ops_nf
+from .. import ops_nf, ops_names
 from ..subject import Subject
 
 ASSUMPTIONS = [
@@ -27,3 +27,7 @@ def run(ctx):
             ops_nf.case_query_flat(ctx, s)
         if i % 5 == 0:
             ops_nf.case_query(ctx, s, nest_name="my nest")
+        if i % 8 == 2:
+            # marker frames with odd names (incl. sibling fields whose cleaned names coincide): the condition filters
+            # by the values of the field the path names
+            ops_names.case_paths(ctx, only=("names.query",))
